@@ -184,6 +184,17 @@ Theorem C13_range_value : forall rows C h w,
 Proof. exact range_value_matrix. Qed.
 Print Assumptions C13_range_value.
 
+(* a reference range of one cell is an ordinary formula cell: it shows the
+   result's element (1, 1) as it is (a blank SCALAR result is 0) *)
+Theorem C13_single_cell_target : forall r0 rest e row0,
+  r0 = e :: row0 -> formula_cell (matrix (r0 :: rest)) = Ok e.
+Proof. exact single_cell_target. Qed.
+Print Assumptions C13_single_cell_target.
+Theorem C13_single_cell_scalar : forall v, scalar_like v = true ->
+  formula_cell v = Ok (if is_blank v then VInt 0 else v).
+Proof. exact single_cell_scalar. Qed.
+Print Assumptions C13_single_cell_scalar.
+
 (* the sheet side and the value side together: every cell (row, col) that
    load_array_formulas writes for the reference range with top left (r0, c0)
    and size h x w lies in that range, its =index(range, i, j) refers to the whole
